@@ -21,6 +21,10 @@
 (*   lower <= upper (cosine / correlation type, singleton groups);         *)
 (*   for rho-a on logged integer data both bounds equal the exact          *)
 (*   rationals of the specification within rounding.                       *)
+(*   The data object's fingerprint logged with the bounds must be the one   *)
+(*   logged before the first call (computing a ceiling leaves the data      *)
+(*   alone).  "call" event: the NEXT ceiling, another method, on the SAME   *)
+(*   object (action NextCall): its folds / bounds are checked like the first*)
 (* "cand" event: a candidate RDM's average similarity (scored by the       *)
 (*   implementation) is never above the returned upper bound.              *)
 (* All Nc* invariants are evaluated on every state.  One behaviour per     *)
@@ -52,7 +56,7 @@ Acc0 == [lo |-> 0, up |-> 0, ret |-> FALSE, up8 |-> 0]
 
 TInit == /\ tid \in 1..Len(Traces) /\ l = 1 /\ acc = Acc0
          /\ objs = [o \in 1..MaxObj |-> IF o = 1 THEN Source ELSE Null] /\ hist = <<>> /\ stage = 1
-         /\ pc = "start" /\ g = 0 /\ pred = NoPred /\ upper = NoPred /\ res = <<>> /\ cand = <<>> /\ xf = <<>>
+         /\ pc = "start" /\ g = 0 /\ pred = NoPred /\ upper = NoPred /\ res = <<>> /\ cand = <<>> /\ xf = <<>> /\ calls = <<>>
          /\ api = Traces[tid].hdr.api /\ meth = Traces[tid].hdr.meth
          /\ src = MkSrc(Traces[tid].hdr.rows, Traces[tid].hdr.pats)
          /\ val = IF Traces[tid].hdr.val = <<>> THEN TokVal ELSE Traces[tid].hdr.val
@@ -73,7 +77,7 @@ Reject(why) == /\ PrintT(ToJson([reject |-> tid, l |-> l, why |-> why, g |-> g,
                                                     testRows |-> <<>>, testPats |-> <<>>]]))
                /\ l' = 0
                /\ UNCHANGED <<objs, hist, fc, folds, stage, src, splits, api, meth, val, pc, g, pred, upper, res,
-                              cand, xf, tid, acc>>
+                              cand, xf, calls, tid, acc>>
 Accept == l = Len(Evs) => PrintT(ToJson([accept |-> tid]))
 
 \* which clause of the fold event cannot be explained
@@ -94,7 +98,8 @@ RhoLoN == 3 * SumS([f \in 1..Len(folds) |-> RhoSum(RankPool2(ObVals(folds[f].cei
 Near(x6, n, d) == x6 * d - n * K6 <= d /\ n * K6 - x6 * d <= d
 RetWhy(e) ==
   LET G == Len(folds) IN
-  IF ~(e.lo8 * G - acc.lo <= G /\ acc.lo - e.lo8 * G <= G) THEN "lower-not-average-of-folds"
+  IF e.fp # Hdr.fp THEN "data-modified"
+  ELSE IF ~(e.lo8 * G - acc.lo <= G /\ acc.lo - e.lo8 * G <= G) THEN "lower-not-average-of-folds"
   ELSE IF ~(e.up8 * G - acc.up <= G /\ acc.up - e.up8 * G <= G) THEN "upper-not-average-of-folds"
   ELSE IF Hdr.single /\ Hdr.ordered /\ meth \in CosType \cup CorrType /\ e.lo8 > e.up8 + 1 THEN "lower-above-upper"
   ELSE IF Hdr.exact /\ meth = "rho-a" /\ ~Near(e.up6, RhoUpN, RhoD) THEN "upper-not-exact-rho-a"
@@ -119,16 +124,18 @@ TDone == /\ l >= 1 /\ l <= Len(Evs) /\ pc = "done"
             IF e.op = "ret" /\ ~acc.ret /\ RetWhy(e) = ""
             THEN /\ acc' = [acc EXCEPT !.ret = TRUE, !.up8 = e.up8] /\ l' = l + 1 /\ Accept
                  /\ UNCHANGED <<objs, hist, fc, folds, stage, src, splits, api, meth, val, pc, g, pred, upper, res,
-                                cand, xf, tid>>
+                                cand, xf, calls, tid>>
+            ELSE IF e.op = "call" /\ acc.ret /\ Len(calls) + 1 < MaxCalls
+            THEN /\ NextCall(e.meth) /\ acc' = Acc0 /\ l' = l + 1 /\ UNCHANGED tid /\ Accept
             ELSE IF e.op = "cand" /\ acc.ret /\ e.s8 <= acc.up8 + 1
             THEN /\ l' = l + 1 /\ Accept
                  /\ UNCHANGED <<objs, hist, fc, folds, stage, src, splits, api, meth, val, pc, g, pred, upper, res,
-                                cand, xf, tid, acc>>
+                                cand, xf, calls, tid, acc>>
             ELSE Reject(IF e.op = "ret" THEN RetWhy(e) ELSE IF e.op = "cand" THEN "candidate-beats-upper"
                         ELSE "event-order")
 \* more groups in the specification than fold events in the log (or the reverse) ends the behaviour
 \* without acceptance
 TNext == Silent \/ TFold \/ TDone
 TSpec == TInit /\ [][TNext]_<<objs, hist, fc, folds, stage, src, splits, api, meth, val, pc, g, pred, upper, res,
-                              cand, xf, tid, l, acc>>
+                              cand, xf, calls, tid, l, acc>>
 =============================================================================
